@@ -32,6 +32,9 @@ type Check struct {
 	Serial bool
 	// NoScheduler: the check drives real goroutines itself (C19); no World is created.
 	NoScheduler bool
+	// DeadlockPred: when set, a dead-lock of the simulated tasks is reported as a violation with this predicate
+	// (properties that promise freedom from dead-lock or hangs); otherwise it is harness trouble.
+	DeadlockPred string
 }
 
 var registry = map[string]*Check{}
@@ -142,6 +145,9 @@ func Guard(f func()) (pv interface{}, stack string) {
 			if _, ok := x.(violationAbort); ok {
 				return
 			}
+			if seamrt.IsKill(x) {
+				return // the scheduler is unwinding this task (dead-lock, end of run)
+			}
 			pv = x
 			stack = string(debug.Stack())
 		}
@@ -185,6 +191,13 @@ func Execute(c *Check, tier string, seed uint64, index int, tape *seamrt.Tape, t
 			r.Err = fmt.Sprintf("panic in check driver: %v\n%s", pv, st)
 		}
 	})
+	if de, ok := err.(*seamrt.DeadlockError); ok && c.DeadlockPred != "" && r.Err == "" && r.Viol == nil {
+		// for properties that promise freedom from dead-lock / hangs, "every task blocked for ever" is the violation itself
+		v := &Violation{Property: c.ID, Pred: c.DeadlockPred, Detail: "every task is blocked and no timer is pending: " + de.Detail, Seq: w.Seq, SimTime: w.Elapsed().String()}
+		w.Logf("VIOLATION %s", v.Pred)
+		v.Fingerprint = w.Fingerprint()
+		r.Viol = v
+	}
 	if err != nil && r.Err == "" && r.Viol == nil {
 		r.Err = err.Error()
 	}
